@@ -253,9 +253,52 @@ fn relations_map() {
     core::mem::forget(dm);
 }
 
-// @verif prop=C12 tier=quick fl=f0 role=inherent/matrix t=1200 mem=12
+/// Inherent predicates of a real AdjacencyMap whose vertex set is {0, 2, 3}.
+fn noncontiguous_map() {
+    const IDS: [usize; 3] = [0, 2, 3];
+
+    cx::set_vcap(5);
+    cx::set_parallelism(1);
+
+    let g = G::<3>::any();
+    let want = defs(&g);
+    let mut d = AdjacencyMap::empty(1);
+
+    d.add_arc(0, 2);
+    d.add_arc(2, 3);
+    let _ = d.remove_arc(0, 2);
+    let _ = d.remove_arc(2, 3);
+
+    for u in 0..3 {
+        for v in 0..3 {
+            if g.a[u][v] {
+                d.add_arc(IDS[u], IDS[v]);
+            }
+        }
+    }
+
+    assert!(d.is_complete() == want.complete, "is_complete iff every ordered pair of distinct vertices is an arc");
+    assert!(d.is_semicomplete() == want.semicomplete, "is_semicomplete iff every unordered pair is joined by at least one arc");
+    assert!(d.is_tournament() == want.tournament, "is_tournament iff every unordered pair is joined by exactly one arc");
+    assert!(d.is_regular() == want.regular, "is_regular iff all in- and outdegrees equal one constant");
+    assert!(d.is_symmetric() == want.symmetric, "is_symmetric iff every arc has its reverse");
+    assert!(d.is_oriented() == want.oriented, "is_oriented iff no arc has its reverse");
+    assert!(d.is_simple(), "is_simple is true for every digraph built through the API");
+    kani::cover!(want.tournament, "a tournament on {0, 2, 3}");
+    core::mem::forget(d);
+}
+
+// AdjacencyMap with vertex set {0, 2, 3} (ids are not positions): every inherent predicate.
+// @verif prop=C12 tier=quick fl=f2 feat=map4 role=noncontiguous/adjacency-map t=1500 mem=14
 #[cfg_attr(kani, kani::proof)]
 #[cfg_attr(kani, kani::unwind(8))]
+pub fn c12_noncontiguous_map() {
+    noncontiguous_map();
+}
+
+// @verif prop=C12 tier=quick fl=f0 role=inherent/matrix t=1200 mem=12
+#[cfg_attr(kani, kani::proof)]
+#[cfg_attr(kani, kani::unwind(16))]
 pub fn c12_inherent_matrix_n4() {
     inherent::<AdjacencyMatrix, 4>(1);
 }
@@ -305,7 +348,7 @@ pub fn c12_relations_n3() {
     relations::<3>();
 }
 
-// @verif prop=C12 tier=quick fl=f1 feat=map4 role=relations/adjacency-map t=1500 mem=14
+// @verif prop=C12 tier=quick fl=f1 feat=map4 role=relations/adjacency-map t=1500 mem=24
 #[cfg_attr(kani, kani::proof)]
 #[cfg_attr(kani, kani::unwind(10))]
 pub fn c12_relations_map() {
